@@ -51,7 +51,9 @@ ASSUMES = [
 PROCESSORS = ["LinearSpinChain", "CircularSpinChain", "SCQubits", "DispersiveCavityQED"]
 TOPO = {"LinearSpinChain": "linear", "CircularSpinChain": "ring", "SCQubits": "linear", "DispersiveCavityQED": "any"}
 KINDS = C3.KINDS
-OTHERS = C3.OTHERS
+OTHERS = dict(C3.OTHERS)
+# the other library names of SWAPalpha / ISWAP: routed (fixes/C07-alias-names) but without decomposition rule -> refused
+ALIASES = {"SWAPALPHA": (0, 2, 1), "iSWAP": (0, 2, 0)}
 ONE = [k for k, v in KINDS.items() if v[0] + v[1] == 1]
 TWO = [k for k, v in KINDS.items() if v[0] + v[1] == 2]
 THREE = [k for k, v in KINDS.items() if v[0] + v[1] == 3]
@@ -127,6 +129,15 @@ def run_load(inp):
 # ------------------------------------------------------------------------------------------------
 # the property oracle (from the property text; numpy only, nothing of the model)
 # ------------------------------------------------------------------------------------------------
+def well_formed(g):
+    if g[0] in ALIASES:
+        nc, nt, na = ALIASES[g[0]]
+        a = g[3]
+        n = 0 if a is None else (len(a) if isinstance(a, (list, tuple)) else 1)
+        return len(g[2]) == nc and len(g[1]) == nt and n == na and len(set(list(g[1]) + list(g[2]))) == nc + nt
+    return C3.well_formed(g)
+
+
 def hw_coupled(proc, N, a, b):
     if a == b or not (0 <= a < N and 0 <= b < N):
         return False
@@ -151,7 +162,7 @@ def oracle(inp, impl):
     """-> list of (what, observed, expected)"""
     fails = []
     N, M, proc = inp["N"], _width(inp), inp["processor"]
-    if not all(C3.well_formed(g) for g in inp["gates"]):
+    if not all(well_formed(g) for g in inp["gates"]):
         return fails                                    # ill-formed gates: only Ok/Rejected and output equality are compared
     if not all(all(0 <= q < M for q in list(g[1]) + list(g[2])) for g in inp["gates"]):
         return fails
@@ -209,7 +220,7 @@ def oracle(inp, impl):
 def oracle_load(inp, impl, load):
     """second observation point: load_circuit rejects exactly what transpile rejects (on circuits that drive at least one pulse)"""
     fails = []
-    if load == "unbuildable" or not all(C3.well_formed(g) for g in inp["gates"]):
+    if load == "unbuildable" or not all(well_formed(g) for g in inp["gates"]):
         return fails
     if impl[0] == "rejected" and load == "ok":
         fails.append(("load_circuit compiles a circuit that transpile refuses", load, "an error"))
@@ -234,7 +245,13 @@ def _safe(inp):
             and all(ok(g[0]) and all(isinstance(x, int) and 0 <= x < 64 for x in list(g[1]) + list(g[2])) for g in inp["gates"]))
 
 
+_model_runs = [0]
+
+
 def run_model(inputs):
+    # case files are named per process and per call: concurrent checks sharing a Coq tree must not overwrite each other's
+    _model_runs[0] += 1
+    tag = f"c13_{os.getpid()}_{_model_runs[0]}"
     files = []
     for k in range(0, len(inputs), 300):
         body = [HEADER]
@@ -243,8 +260,21 @@ def run_model(inputs):
             if inp.get("measure"):
                 ops.append("OpMeasure")
             body.append(f'Eval vm_compute in run13 "{inp["processor"]}" {int(inp["N"])}%nat {_width(inp)}%nat [{"; ".join(ops)}].')
-        files.append((f"c13_cases_{k // 300}", "\n".join(body) + "\n"))
-    outs = coq_eval_many(files, timeout=900)
+        files.append((f"{tag}_{k // 300}", "\n".join(body) + "\n"))
+    try:
+        outs = coq_eval_many(files, timeout=900)
+    finally:
+        import common as _c
+        for name, _ in files:
+            for ext in (".v", ".vo", ".vok", ".vos", ".glob"):
+                try:
+                    os.remove(os.path.join(_c.COQ, "Cases", name + ext))
+                except OSError:
+                    pass
+            try:
+                os.remove(os.path.join(_c.COQ, "Cases", "." + name + ".aux"))
+            except OSError:
+                pass
     vals = []
     for name, _ in files:
         vals += parse_evals(outs[name])
@@ -314,6 +344,11 @@ def gen_inputs(ctx):
             g = C3.mk_gate(name, t, c, rng)
             pre = [C3.mk_gate("RX", [0], [], rng)] if rng.random() < 0.5 else []
             out.append(("refuse", dict(processor=proc, N=N, gates=pre + [g])))
+        for name, (nc, nt, na) in ALIASES.items():
+            for N in (2, 3, 4, 5):
+                for p in ([(0, N - 1), (N - 1, 0)] + [tuple(rng.sample(range(N), 2))]):
+                    pre = [C3.mk_gate("RX", [0], [], rng)] if rng.random() < 0.3 else []
+                    out.append(("refuse", dict(processor=proc, N=N, gates=pre + [[name, list(p), [], (0.5 if na else None)]])))
         out.append(("refuse", dict(processor=proc, N=2, gates=[["X", [0], [], None]], measure=True)))
         out.append(("refuse", dict(processor=proc, N=3, gates=[["CNOT", [0], [2], None]], measure=True)))
     # 4. circuit narrower / wider than the processor: the end pair (0, M-1) of the circuit (its own wrap-around pair), every
